@@ -15,6 +15,7 @@ ARGCLASSES = ['ok', 'ok', 'ok', 'missing', 'dot', 'badutf8', 'untrashable',
 def config(tier):
     return {
         'level': 'exploration',
+        'cold_sample': 3 if tier == 'quick' else 20,
         'real_sample': 4 if tier == 'quick' else 30,
         'cases': 1800 if tier == 'quick' else 40000,
         'budget_s': 55 if tier == 'quick' else 560,
